@@ -495,7 +495,9 @@ class C10(DerivePlugin):
                 inputs = [recs]
                 if kind == "sub":
                     allp = [p for r in recs for p in [r[0], *r[2]]]
-                    op = [1, [p for p in allp if rng.random() < 0.6]]
+                    # also prefixes the input does not know (and, rarely, the same name twice): asking for them must not leave a trace
+                    unknown = [x for x in (rng.choice(qprops.CP_POOL + ["mesh", "zz9"]) for _ in range(rng.choice([0, 0, 1, 2]))) if x not in allp]
+                    op = [1, [p for p in allp if rng.random() < 0.6] + unknown]
                 elif kind == "curie":
                     op = [2, gen_curie_remapping(rng, recs)]
                 elif kind == "uri":
